@@ -219,7 +219,8 @@ def access_cases():
 
 
 def access_fn(case, wit):
-    cfg = {"simulation": {"markets": ["G0", "G1", "G2"], "agents": ["A"], "sessions": []},
+    cfg = {"simulation": {"markets": ["G0", "G1", "G2"], "agents": ["A", "Z"] if case else ["A"], "sessions": []},
+           "Z": {"class": "TestAgent", "markets": [case[0]] if case else [], "cashAmount": 1, "assetVolume": 1, "numAgents": 1},
            "G0": {"class": "Market", "tickSize": 1.0, "marketPrice": 100.0, "numMarkets": 2},
            "G1": {"class": "Market", "tickSize": 1.0, "marketPrice": 100.0},
            "G2": {"class": "Market", "tickSize": 1.0, "marketPrice": 100.0, "from": 0, "to": 0},
@@ -230,8 +231,14 @@ def access_fn(case, wit):
     want = set()
     for g in case:
         want |= set(m.market_id for m in sim.markets_group_name2market[g])
+    want_z = set(m.market_id for m in sim.markets_group_name2market[case[0]]) if case else set()
     for a in sim.agents:
         got = set(m.market_id for m in sim.markets if a.is_market_accessible(m.market_id))
+        if a.name.startswith("Z"):
+            if got != want_z:
+                raise Violation("C18.access", "an agent can access markets other than exactly those of the groups it lists",
+                                "a later agent group listing only %s (after a group listing %s): accessible %s expected %s" % (case[0], list(case), sorted(got), sorted(want_z)))
+            continue
         if got != want:
             raise Violation("C18.access", "an agent can access markets other than exactly those of the groups it lists",
                             "lists %s: accessible %s expected %s" % (list(case), sorted(got), sorted(want)))
